@@ -186,6 +186,9 @@ def numeral_gmpy(n, base=10, size=0, digits=stddigits):
     exact."""
     if n < 0:
         return "-" + numeral(-n, base, size, digits)
+    # gmpy.digits() has an alphabet of its own (and another one above 36)
+    if digits != stddigits or base > 36:
+        return numeral_python(n, base, size, digits)
     # gmpy.digits() may cause a segmentation fault when trying to convert
     # extremely large values to a string. The size limit may need to be
     # adjusted on some platforms, but 1500000 works on Windows and Linux.
